@@ -763,7 +763,6 @@ def _complete_value_clauses():
         ("object-executes-its-selection-once", "a composite value resolves its runtime type (if abstract), collects the sub-selections of all nodes and executes them exactly once",
          object_once),
         ("only-runtime-errors-raised-here", "complete_value itself raises only RuntimeError / TypeError (never the library's resolver error)", explicit_raises),
-        ("unrepresentable-leaf-fails-the-request", "ScalarSerializationError / UnknownEnumValue are turned into RuntimeError", serialisation_failures),
     ]
 
 
